@@ -396,11 +396,17 @@ func (e *env) spendingHistory(id int) (string, interface{}) {
 					t.Ben.Accounts = append(t.Ben.Accounts, sptypes.WeightedAccount{Account: e.accts[r.Intn(len(e.accts))].String(), Weight: sdk.MustNewDecFromStr(weightStrs[r.Intn(len(weightStrs))])})
 				}
 			}
+			quorum := sdk.NewDecWithPrec(51, 2)
 			opCoq = fmt.Sprintf("OCreate %d %s", p, e.termsCoq(t))
 			j["op"], j["p"], j["terms"] = "create", p, e.termsCoq(t)
+			if gstep < 0 && r.Chance(4) { // a vote quorum outside [0,1]
+				quorum = sdk.MustNewDecFromStr([]string{"1.5", "-0.1", "1.000000000000000001"}[r.Intn(3)])
+				opCoq = fmt.Sprintf("OBadQuorum false %d %s", p, e.termsCoq(t))
+				j["op"], j["quorum"] = "create_bad_quorum", quorum.String()
+			}
 			f = func(c sdk.Context) error {
 				msg := &sptypes.MsgCreateSpendingPool{Name: poolNames[p], ClaimStart: t.Start, ClaimEnd: t.End, ClaimExpiry: t.Expiry, Rates: t.Rates,
-					VoteQuorum: sdk.NewDecWithPrec(51, 2), VotePeriod: 600, VoteEnactment: 300,
+					VoteQuorum: quorum, VotePeriod: 600, VoteEnactment: 300,
 					Owners:        sptypes.PermInfo{OwnerAccounts: []string{e.accts[0].String()}},
 					Beneficiaries: t.Ben, Sender: e.accts[0].String(), DynamicRate: t.Dyn, DynamicRatePeriod: t.DynP}
 				if err := msg.ValidateBasic(); err != nil {
@@ -465,12 +471,22 @@ func (e *env) spendingHistory(id int) (string, interface{}) {
 				}
 			}
 			t.Expiry = 0 // the proposal has no such field
+			quorum := sdk.NewDecWithPrec(51, 2)
 			opCoq = fmt.Sprintf("OUpdate %d %s", p, e.termsCoq(t))
 			j["op"], j["p"], j["terms"] = "update_proposal", p, e.termsCoq(t)
+			if r.Chance(4) { // a vote quorum outside [0,1]
+				quorum = sdk.MustNewDecFromStr([]string{"1.5", "-0.1", "1.000000000000000001"}[r.Intn(3)])
+				opCoq = fmt.Sprintf("OBadQuorum true %d %s", p, e.termsCoq(t))
+				j["op"], j["quorum"] = "update_proposal_bad_quorum", quorum.String()
+			}
 			f = func(c sdk.Context) error {
-				return spending.NewApplyUpdateSpendingPoolProposalHandler(k).Apply(c, 1, &sptypes.UpdateSpendingPoolProposal{Name: poolNames[p], ClaimStart: t.Start, ClaimEnd: t.End,
-					Rates: t.Rates, VoteQuorum: sdk.NewDecWithPrec(51, 2), VotePeriod: 600, VoteEnactment: 300,
-					Owners: sptypes.PermInfo{OwnerAccounts: []string{e.accts[0].String()}}, Beneficiaries: t.Ben, DynamicRate: t.Dyn, DynamicRatePeriod: t.DynP}, sdk.ZeroDec())
+				prop := &sptypes.UpdateSpendingPoolProposal{Name: poolNames[p], ClaimStart: t.Start, ClaimEnd: t.End,
+					Rates: t.Rates, VoteQuorum: quorum, VotePeriod: 600, VoteEnactment: 300,
+					Owners: sptypes.PermInfo{OwnerAccounts: []string{e.accts[0].String()}}, Beneficiaries: t.Ben, DynamicRate: t.Dyn, DynamicRatePeriod: t.DynP}
+				if err := prop.ValidateBasic(); err != nil { // checked when the proposal is submitted
+					return err
+				}
+				return spending.NewApplyUpdateSpendingPoolProposalHandler(k).Apply(c, 1, prop, sdk.ZeroDec())
 			}
 		case choice < 82: // distribution proposal
 			p := pickPool()
@@ -1004,6 +1020,34 @@ func (e *env) probes() map[string]bool {
 		k.SetClaimInfo(c, sptypes.ClaimInfo{PoolName: "probe", Account: e.accts[0].String(), LastClaim: uint64(T0)})
 		out["spending_endblock_guards_denominator"] = hx.Try(func() { k.EndBlocker(c) }) == ""
 	}
+	// 1b. a claim the pool's recorded balance does not cover: panic (Coins.Sub) or error
+	{
+		c, _ := e.base.CacheContext()
+		k := e.app.SpendingKeeper
+		k.SetSpendingPool(c, sptypes.SpendingPool{Name: "probe", ClaimExpiry: 1000000, Rates: sdk.DecCoins{sdk.NewDecCoin("ukex", sdk.NewInt(10))}, VoteQuorum: sdk.NewDecWithPrec(51, 2), Owners: &sptypes.PermInfo{},
+			Beneficiaries: &sptypes.WeightedPermInfo{Accounts: []sptypes.WeightedAccount{{Account: e.accts[0].String(), Weight: sdk.OneDec()}}},
+			Balances: sdk.NewCoins(sdk.NewInt64Coin("ukex", 1))})
+		k.SetClaimInfo(c, sptypes.ClaimInfo{PoolName: "probe", Account: e.accts[0].String(), LastClaim: uint64(T0 - 100)})
+		var err error
+		pan := hx.Try(func() { err = k.ClaimSpendingPool(c, "probe", e.accts[0]) })
+		out["spending_payout_returns_error"] = pan == "" && err != nil
+	}
+	// 1c. vote quorum outside [0,1] refused by ValidateBasic of the create message and the update proposal
+	{
+		m := &sptypes.MsgCreateSpendingPool{Name: "probe", VoteQuorum: sdk.MustNewDecFromStr("1.5"), Sender: e.accts[0].String()}
+		u := &sptypes.UpdateSpendingPoolProposal{Name: "probe", VoteQuorum: sdk.MustNewDecFromStr("1.5")}
+		out["spending_quorum_range_checked"] = m.ValidateBasic() != nil && u.ValidateBasic() != nil
+	}
+	// 2b. ubi upsert with a zero period: integer division panic or refused (sdk.Int arithmetic shape)
+	{
+		c, _ := e.base.CacheContext()
+		var err error
+		pan := hx.Try(func() {
+			err = ubi.NewApplyUpsertUBIProposalHandler(e.app.UbiKeeper, e.app.CustomGovKeeper, e.app.SpendingKeeper).Apply(c, 1,
+				&ubitypes.UpsertUBIProposal{Name: "probe", Amount: 1, Period: 0, Pool: "ValidatorBasicRewardsPool"}, sdk.ZeroDec())
+		})
+		out["ubi_sums_in_big_integers"] = pan == "" && err != nil
+	}
 	// 2. ubi EndBlocker on a record whose last+period exceeds 2^64: distributed (wrap-around) or not
 	{
 		c, _ := e.base.CacheContext()
@@ -1117,11 +1161,14 @@ func main() {
 	pre.WriteString("Definition c18_denoms : list Z := [0; 1; 2].\n")
 	pre.WriteString("(* model variants, decided by probing the tree *)\n")
 	pre.WriteString("Definition c18_dynguard : bool := " + hx.B(probes["spending_endblock_guards_denominator"]) + ".\n")
+	pre.WriteString("Definition c18_payout_safe : bool := " + hx.B(probes["spending_payout_returns_error"]) + ".\n")
+	pre.WriteString("Definition c18_quorum_checked : bool := " + hx.B(probes["spending_quorum_range_checked"]) + ".\n")
+	pre.WriteString("Definition c18_ubi_bigint : bool := " + hx.B(probes["ubi_sums_in_big_integers"]) + ".\n")
 	pre.WriteString("Definition c18_gate_exact : bool := " + hx.B(probes["ubi_gate_without_wraparound"]) + ".\n")
 	pre.WriteString("Definition c18_remove_atomic : bool := " + hx.B(probes["collective_remove_returns_error"]) + ".\n")
 	out.WriteFile("pre.v", pre.String())
 	out.WriteFile("cases.txt", strings.Join(cases, "\n")+"\n")
-	out.WriteJSON("meta.json", map[string]string{"case_type": "c18_case", "mismatch_fn": "c18_mismatches c18_dynguard c18_gate_exact c18_remove_atomic c18_actors c18_denoms", "violation_fn": "c18_violations c18_actors c18_denoms"})
+	out.WriteJSON("meta.json", map[string]string{"case_type": "c18_case", "mismatch_fn": "c18_mismatches c18_dynguard c18_payout_safe c18_quorum_checked c18_gate_exact c18_ubi_bigint c18_remove_atomic c18_actors c18_denoms", "violation_fn": "c18_violations c18_actors c18_denoms"})
 	out.WriteJSON("cases.json", js)
 	out.WriteJSON("dist.json", map[string]interface{}{"seed": seed, "histories": len(js), "ops_by_kind_and_result": e.dist, "probes": probes, "accounts": len(e.accts), "denoms": denoms})
 	fmt.Fprintf(os.Stderr, "c18: %d histories\n", len(js))
